@@ -189,6 +189,8 @@ func (f *UnionFile) Readdir(c int) (ofi []os.FileInfo, err error) {
 	files := f.files[f.off:]
 
 	if c <= 0 {
+		// everything that is left has been handed out: a further call finds nothing
+		f.off = len(f.files)
 		return files, nil
 	}
 
